@@ -1,7 +1,11 @@
 """C17 - conversions and mixed-unit arithmetic never truncate to integers (partial: see MANIFEST / OUTSIDE)."""
 import ast
+import collections
+import copy
 import math
+import operator
 import os
+import sys
 import warnings
 from fractions import Fraction
 
@@ -9,7 +13,7 @@ import numpy as np
 import z3
 
 from symx.core import SymBool, SymReal
-from symx.shims import REPO, HarnessError, NpShim
+from symx.shims import REPO, HarnessError, NpShim, clear_caches
 
 from .common import And, Case, Or, call, check_names, close, elements
 
@@ -27,10 +31,18 @@ MANIFEST = dict(
           "the dtype the code requests is read from a cast-request log. Everything else in (b) - result dtypes, copy/in-place "
           "agreement, in-place routes, out= promotion, complex operands, equivalence routes - is decided on concrete table units and "
           "concrete boundary values: that share is ENUMERATION of the finite dtype x route map, not a solver verdict, and is claimed "
-          "only as such. Converted values as IEEE numbers are not claimed."),
+          "only as such. (c) Call histories: the choice of dtype, the values and the warning must not depend on what was converted "
+          "earlier in the same process. Sequences of two and three calls (conversion routes, in-place routes, same-dimension and "
+          "spectral equivalence routes, mixed-unit add / floor_divide, out= promotion; arrays and quantities; every ordered pair of the "
+          "13 dtypes) are run inside ONE path from the module state of a freshly imported library, once on table units and once more, from "
+          "that state again, with the copy-route and add steps in harness units whose scales are z3 reals; every step is held to the "
+          "single-call obligations (z3 proves the values for ALL scales after the history, the cast log gives the requested dtype), and "
+          "operands and results of earlier steps must still hold their numbers when the history ends. Which histories are run is "
+          "enumeration. Converted values as IEEE numbers are not claimed."),
     design="DESIGN.md section 4 C17",
     technique="SMT (bit-vectors + floating point) threshold queries built from the source AST; symbolic execution of the real Python "
-              "code over typed arrays with z3-real unit scales; concrete enumeration of the dtype x route map; counterexample replay")
+              "code over typed arrays with z3-real unit scales; concrete enumeration of the dtype x route map and of two- and three-call "
+              "histories run inside one path; counterexample replay")
 EXPLANATION = (
     "(a) For every integer dtype and every conversion route the target float format is taken from a real run, the warning "
     "condition from the AST of the current source (LARGE_INPUT literal, `large = LARGE_INPUT.get(dsize, 0)`, the `if` guarding "
@@ -45,7 +57,18 @@ EXPLANATION = (
     "to 8 ulp of the narrowest float involved) for all sa, sb > 0; the NpShim cast log shows which dtype the code asked for (float of the input's item size, >= 16 bit). The in-place "
     "routes, out= buffers and complex operands cannot carry a symbolic factor (a typed buffer cannot hold a term): they run on table "
     "units km/m (and keV/K, km/Hz for equivalences) with boundary values and are compared with exact rational arithmetic rounded to "
-    "the narrowest float involved."
+    "the narrowest float involved. (c) Histories: a step is one call of one kind (to, in_units, to_value, in_base, to_equivalent, "
+    "convert_to_units, convert_to_base, convert_to_equivalent, add, floor_divide, out=, spectral equivalence; '@q' = on a unyt_quantity) "
+    "on data of one dtype; a history is two or three steps executed in one path. Every path of every C17 case starts by putting the "
+    "module-level and class-level containers and simple globals of all unyt modules back to what `import unyt` left there (and by "
+    "clearing the lru_caches), because the replay starts from a fresh interpreter; a history is run twice from that state: on table units "
+    "(m->km, cm->m for the base routes: factors a narrow float cannot hold exactly, so a factor remembered in another type shows), then "
+    "with the copy-route / add steps on real data in harness units of symbolic scale (the other steps stay on table units). Obligations "
+    "are conjunctions over the steps, one label per obligation kind: succeeds (or raises only for 1-byte integers), floating kind / "
+    "complex stays complex, float of the item size, values (exact rationals on table units; v*s_from/s_to for ALL scales by z3), requested "
+    "dtype from the cast log, RuntimeWarning at every step that converts the first integer its float cannot hold, inputs untouched, and "
+    "operands/results of earlier steps unaltered at the end (values differ from step to step, six per array for every dtype, so a buffer "
+    "shared between steps shows)."
 )
 BOUNDS = {
     "quick": "(a) 8 integer dtypes x routes {in_units, to, to_value, convert_to_units, in_base, convert_to_base}: every value of the "
@@ -54,11 +77,21 @@ BOUNDS = {
              "km<->m; thermal and spectral equivalence x 13 dtypes; mixed-unit ufuncs {add, subtract, less, floor_divide} x real dtype "
              "pairs {same dtype, float64 first}, {add, subtract} x 8 pairs with a complex operand; out= {same unit, mixed unit, unary, "
              "integer operands, plain ndarray out} x 13 out dtypes; symbolic scales (two z3 reals, > 0, differing by > 0.1%) for the copy "
-             "routes on int/uint/float data and for add/subtract on real typed operands",
+             "routes on int/uint/float data and for add/subtract on real typed operands; (c) histories: two steps to->to for all 13x13 "
+             "ordered dtype pairs; two steps for all 5x5 pairs of the sites {to, in_base, convert_to_units, add, out=} x 31 colliding "
+             "dtype pairs (same item size with another target: float64/int64/uint64 vs complex64; same kind with another size; other "
+             "kind and size; three repeats), both orders; each remaining kind {in_units, to_value, to_equivalent, convert_to_base, "
+             "convert_to_equivalent, floor_divide, spectral} before and after to and add x 8 pairs; quantities (to, convert_to_units, "
+             "in_base on a unyt_quantity) before/after an array and twice; three steps over {float32, int64, float64, complex64, "
+             "complex128}^3 through to/to/to and a quarter of them through three mixed site patterns (about 1400 histories)",
     "thorough": "(a) same; (b) same routes/equivalences/out= cases; mixed-unit ufuncs {add, subtract, maximum, minimum, remainder, hypot, "
                 "arctan2, floor_divide, less, greater_equal, equal, not_equal} x real dtype pairs {same dtype, float64/int64/float16 "
                 "first}, all 11x11 real pairs for add/subtract; {add, subtract, equal, not_equal} x complex64/128 paired with every dtype "
-                "in both positions; symbolic scales as in quick",
+                "in both positions; symbolic scales as in quick; (c) histories: two steps for all 7x7 pairs of the sites {to, in_base, "
+                "convert_to_units, convert_to_base, add, out=, to_equivalent} x the 31 colliding dtype pairs, and x all 13x13 ordered "
+                "dtype pairs where both sites are the same or one is to (19 site pairs); the remaining kinds before and after to and add "
+                "x the 31 colliding pairs; quantities for 5 kinds; three steps over 8 dtypes cubed x 4 site patterns (about 7 200 "
+                "histories; the full 7x7x169 product was cut for wall time)",
 }
 OUTSIDE = ("the converted values as IEEE numbers (double rounding through astype + multiply) - only 'not truncated: within 8 ulp of the "
            "narrowest float the data passes through' is checked on concrete runs and exact real arithmetic (1e-6 band, widened to 8 ulp "
@@ -67,13 +100,22 @@ OUTSIDE = ("the converted values as IEEE numbers (double rounding through astype
            "NumPy warns); the result WIDTH of mixed-unit arithmetic beyond 'floating point and not narrower than the converted operand' "
            "(NumPy promotes int32 + float32 to float64); longdouble/clongdouble, bool, object and structured dtypes; in-place routes, "
            "out=, equivalence routes and complex operands with symbolic scales (enumerated on table units instead); multiple-output "
-           "ufuncs with out=; dask arrays; which of the two warnings' texts is shown (any RuntimeWarning counts)")
+           "ufuncs with out=; dask arrays; which of the two warnings' texts is shown (any RuntimeWarning counts); histories longer than three "
+           "calls, histories through calls other than the listed kinds (pickling, copying, registry edits - see C11-C13), histories across "
+           "several registries or unit pairs other than m/km/cm and the two harness units; the item size of the cross-dimension equivalence "
+           "step inside a history (known finding, reported by the C17/equivalence cases; the step is held to kind and values); state the "
+           "library might keep where the per-path reset does not reach (closures, attributes of long-lived objects): it would leak between "
+           "cases of one worker and surface as a counterexample that does not replay (exit 2), never as a pass of the history cases, which "
+           "build their own history")
 ASSUMPTIONS = [
     "C17(a): np.abs on a signed integer array wraps at the most negative value; comparing an integer array with a python int is the "
     "mathematical comparison; casting to a float type rounds to nearest-even and NumPy emits RuntimeWarning 'overflow encountered in "
     "cast' exactly when the rounded value is infinite - each validated against the executed code at the boundary integers on every run",
+    "C17 histories: restoring the module-level and class-level dict/list/set objects and simple globals of the unyt modules to their "
+    "contents after import, plus clearing the lru_caches, puts the library into the state of a fresh interpreter (what the replay uses); "
+    "a counterexample found under this assumption is confirmed only if it replays in a really fresh interpreter",
 ]
-CONFORM = {"quick": 40, "thorough": 120}
+CONFORM = {"quick": 60, "thorough": 160}
 
 NAMES = ["xa", "xb"]
 INT_DTYPES = ["int8", "uint8", "int16", "uint16", "int32", "uint32", "int64", "uint64"]
@@ -998,17 +1040,477 @@ def make_out_case(kind, odt, plain_out=False):
     return Case(f"C17/out/{kind}{'-ndarray' if plain_out else ''}/{odt}", h, bounds="concrete: table units")
 
 
+# ----------------------------------------------------------------------------------------------- process state
+
+_BOXES = (dict, list, set, collections.OrderedDict, collections.defaultdict)
+_SIMPLE = (type(None), bool, int, float, complex, str, bytes, tuple, frozenset, np.dtype)
+_MISSING = object()
+
+
+def _box_same(box, saved):
+    if len(box) != len(saved):
+        return False
+    if isinstance(box, dict):
+        return box.keys() == saved.keys() and all(map(operator.is_, box.values(), saved.values())) \
+            and all(map(operator.is_, box.keys(), saved.keys()))
+    if isinstance(box, list):
+        return all(map(operator.is_, box, saved))
+    return box == saved  # sets hold hashable members
+
+
+class ProcessState:
+    """what `import unyt` leaves in the module-level (and class-level) containers and simple globals of the unyt modules.
+    The runner clears unyt's lru_caches at the start of a path; anything else a module keeps between calls (a memo table, a
+    'last dtype' global) would leak from one case into the next inside a worker process, while the replay starts from a
+    fresh interpreter. restore() puts these back, so that every path - and every history inside a path that asks for it -
+    starts from the state of a freshly imported library, exactly as the replay does."""
+
+    def __init__(self):
+        self.owners = []
+        for name, m in sorted(sys.modules.items()):
+            if (name == "unyt" or name.startswith("unyt.")) and m is not None:
+                self.owners.append(m)
+                for v in list(vars(m).values()):
+                    if isinstance(v, type) and str(getattr(v, "__module__", "")).startswith("unyt") and v not in self.owners:
+                        self.owners.append(v)
+        self.boxes, self.names, seen = [], [], set()
+        for o in self.owners:
+            keys = {}
+            for k, v in list(vars(o).items()):
+                if k.startswith("__"):
+                    continue
+                if type(v) in _BOXES:
+                    keys[k] = v
+                    if id(v) not in seen:
+                        seen.add(id(v))
+                        self.boxes.append((v, copy.copy(v)))
+                elif type(v) in _SIMPLE:
+                    keys[k] = v
+            self.names.append((o, keys, len(vars(o))))
+
+    def restore(self):
+        for box, saved in self.boxes:
+            if _box_same(box, saved):
+                continue
+            if isinstance(box, list):
+                box[:] = saved
+            else:
+                box.clear()
+                box.update(saved)
+        for o, keys, size in self.names:
+            now = vars(o)
+            for k, v in keys.items():
+                if now.get(k, _MISSING) is not v:
+                    setattr(o, k, v)
+            if len(now) == size:
+                continue
+            for k in [k for k, v in list(now.items()) if k not in keys and not k.startswith("__") and type(v) in _BOXES + _SIMPLE]:
+                try:
+                    delattr(o, k)
+                except (AttributeError, TypeError):
+                    pass
+
+
+_pristine = {}
+
+
+def fresh_library(ctx):
+    """module state as after `import unyt`, caches empty"""
+    st = _pristine.get(id(ctx.mods["unyt"]))
+    if st is None:
+        raise HarnessError("C17: cases() did not record the state of the freshly imported library")
+    st.restore()
+    clear_caches(ctx.mods)
+
+
+def from_fresh_library(case):
+    fn = case.fn
+
+    def h(ctx):
+        fresh_library(ctx)
+        return fn(ctx)
+    case.fn = h
+    return case
+
+
+# ----------------------------------------------------------------------------------------------- call histories
+#
+# The dtype the library chooses for one conversion must not depend on what was converted before in the same process. A step
+# is one call of one KIND on data of one dtype; a history is a sequence of two or three steps run inside ONE path from the
+# state of a freshly imported library; EVERY step is held to the obligations a single conversion is held to.
+
+H_COPY = ("to", "in_units", "to_value", "in_base", "to_equivalent")
+H_INPLACE = ("convert_to_units", "convert_to_base", "convert_to_equivalent")
+H_BINARY = ("add", "floor_divide")  # the two places a binary ufunc builds the float type of its second operand
+H_KINDS = H_COPY + H_INPLACE + H_BINARY + ("out", "spectral")
+H_SCALAR = ("to", "in_units", "in_base", "convert_to_units", "convert_to_base")  # kinds also run on a unyt_quantity ("<kind>@q")
+H_WARNS = H_COPY + H_INPLACE  # kinds whose integer conversions are governed by a warning site (part (a))
+H_SYMBOLIC = ("to", "in_units", "to_value", "in_base", "to_equivalent", "add")  # kinds that can carry symbolic unit scales
+
+L_RUNS = "history: every step succeeds (raising only where no float of the item size exists)"
+L_KIND = "history: floating point, complex stays complex, at every step"
+L_SIZE = "history: float of the input's item size at every step"
+L_VALS = "history: values converted, not truncated, at every step"
+L_WARN = "history: RuntimeWarning at every step that converts integers too large for the float"
+L_KEPT = "history: input untouched by the copy routes at every step"
+L_SVAL = "history, symbolic scales: values are v*s_from/s_to for all scales at every step"
+L_SREQ = "history, symbolic scales: requested float type has the input's item size at every step"
+L_LATE = "history: operands and results of earlier steps are not altered by later steps"
+H_LABELS = (L_RUNS, L_KIND, L_SIZE, L_VALS, L_WARN, L_KEPT, L_SVAL, L_SREQ, L_LATE)
+
+
+def history_values(dt, large_table, i=0):
+    """six values per dtype (the same count for every dtype, different numbers at every step i, so that a buffer shared between
+    steps shows), with fractions/imaginary parts that truncation would lose; for integers the first value the float of the
+    item size cannot hold (if the dtype has it), so that the warning is due at that step"""
+    dt = np.dtype(dt)
+    if dt.kind in "ui":
+        L = large_table.get(max(2, dt.itemsize))
+        big = L if isinstance(L, int) and L <= np.iinfo(dt).max else 7
+        return [i, 1 + i, 3, 50, -7 if dt.kind == "i" else 125, big]
+    if dt.kind == "f":
+        return [0.5 * i, 1.0, -1.5, 0.25, 500.0, 1500.0 + i]
+    return [0.5j * i, 1 + 2j, -0.5 + 0.25j, 500 - 1500j, 3j, 125 + i + 0j]
+
+
+class Ledger:
+    """obligations of a history are conjunctions over its steps: one label per obligation kind, so that the same obligation
+    fails whichever step the state left by the earlier ones hits"""
+
+    def __init__(self):
+        self.conds = {l: [] for l in H_LABELS}
+        self.info = {l: [] for l in H_LABELS}
+        self.kept = []
+
+    def keep(self, what, arr, **info):
+        """remember a typed buffer (an operand or a result) of a step: it must still hold the same numbers when the history ends"""
+        a = np.asarray(arr)
+        if a.dtype != object:
+            self.kept.append((what, a, a.copy(), info))
+
+    def add(self, label, cond, **info):
+        self.conds[label].append(cond)
+        if not isinstance(cond, SymBool) and not cond:
+            self.info[label].append(info)
+
+    def settle(self, ctx, history):
+        for what, a, snap, info in self.kept:
+            self.add(L_LATE, a.dtype == snap.dtype and a.shape == snap.shape and np.array_equal(a, snap, equal_nan=a.dtype.kind in "fc"),
+                     what=what, now=repr(a)[:120], was=repr(snap)[:120], **info)
+        for l in H_LABELS:
+            if self.conds[l]:
+                ctx.require(l, And(*self.conds[l]), history=history, failing=self.info[l][:3])
+
+
+def history_step_table(ctx, led, kind, dt, model, where, i=0):
+    """one step on table units (concrete typed data): m -> km (cm -> m for the base routes, km -> Hz for the spectral
+    equivalence), compared with exact rational arithmetic rounded to the narrowest float involved"""
+    dtype = np.dtype(dt)
+    want = want_float(dtype)
+    info = dict(step=where, kind=kind, dtype=str(dtype))
+    kind, scalar = split_kind(kind)
+    values = history_values(dtype, model["large"], i)
+    if scalar:
+        values = [{"u": 125, "i": 125, "f": 1500.0, "c": 500 - 1500j}[dtype.kind] + i]
+    held = [py(v) for v in np.array(values, dtype=dtype)]
+    one_byte_int = dtype.itemsize == 1 and dtype.kind in "ui"
+    if kind in H_BINARY:
+        if kind == "floor_divide" and dtype.kind == "c":
+            raise HarnessError("C17: floor_divide is not defined on complex data")
+        xs = [1, 2, 3, 5 + i] if dtype.kind != "c" else XS["complex"][:3] + [5j + i]
+        ys = second_values(dtype)
+        a, b = typed(ctx, xs, dtype, "km"), typed(ctx, ys, dtype, "m")
+        r = run(getattr(np, kind), a, b)
+        led.keep("first operand", a.d, **info)
+        led.keep("second operand", b.d, **info)
+        led.add(L_RUNS, r.ok or dtype.itemsize == 1, exc=None if r.ok else repr(r.value)[:160], **info)
+        if not r.ok:
+            return
+        d = data_of(r.value)
+        led.add(L_KIND, d.dtype.kind == ("c" if dtype.kind == "c" else "f"), got=str(d.dtype), **info)
+        led.add(L_SIZE, d.dtype.kind in "fc" and real_float(d.dtype).itemsize >= real_float(want).itemsize, got=str(d.dtype),
+                at_least=str(want), **info)
+        if d.dtype.kind in "fc":
+            fdt = narrowest(dtype, d.dtype)
+            got = [py(x) for x in d.ravel()]
+            K = Fraction(1, 1000)
+            bad = []
+            for g, x, y in zip(got, held_of(xs, dtype), held_of(ys, dtype)):
+                if dtype.kind == "c":
+                    e = (Fraction(x.real) + Fraction(y.real) * K, Fraction(x.imag) + Fraction(y.imag) * K)
+                    bd = abs(x) + abs(y) / 1000.0
+                else:
+                    e = Fraction(x) + Fraction(y) * K
+                    bd = float(abs(Fraction(x)) + abs(Fraction(y) * K))
+                if kind == "floor_divide":
+                    if float(g) != float(math.floor(Fraction(x) / (Fraction(y) * K))):
+                        bad.append((x, y, g))
+                elif not vclose(g, e, fdt, band=bd):
+                    bad.append((x, y, g))
+            unit = "dimensionless" if kind == "floor_divide" else "km"
+            led.add(L_VALS, not bad and len(got) == len(xs) and str(r.value.units) == unit, bad=bad[:3], unit=str(r.value.units), **info)
+        led.keep("result", d, **info)
+        return
+    if kind == "out":
+        unyt = ctx.mods["unyt"]
+        a = typed(ctx, [1.5, 2.25, 3.0 + i], "float64", "km")
+        b = typed(ctx, [500.0, 250.0, 1000.0], "float64", "m")
+        exp = [Fraction(2), Fraction(5, 2), Fraction(4 + i)]
+        o = unyt.unyt_array(np.zeros(3, dtype=dtype), "s")
+        r = run(lambda: np.add(a, b, out=o))
+        led.add(L_RUNS, r.ok or dtype.itemsize == 1, exc=None if r.ok else repr(r.value)[:160], **info)
+        if not r.ok:
+            return
+        do, dr = data_of(o), data_of(r.value)
+        led.add(L_KIND, do.dtype.kind == ("c" if dtype.kind == "c" else "f"), got=str(do.dtype), **info)
+        led.add(L_SIZE, do.dtype == want and dr.dtype == do.dtype, out=str(do.dtype), returned=str(dr.dtype), want=str(want), **info)
+        if do.dtype.kind in "fc":
+            fdt = real_float(want)
+            ok = all(near(complex(py(g)).real, e, fdt) and complex(py(g)).imag == 0 for dd in (do, dr) for g, e in zip(dd.ravel(), exp))
+            led.add(L_VALS, ok and str(o.units) == "km", out=[py(x) for x in do.ravel()], unit=str(o.units), **info)
+        led.keep("out buffer", do, **info)
+        for what, x in (("first operand", a), ("second operand", b)):
+            led.keep(what, x.d, **info)
+        return
+    if kind == "spectral":
+        # cross-dimension equivalence (copy route). Its item size is the subject of a known finding reported by the
+        # C17/equivalence cases (always float64/complex128); here it is a step of the history, held to kind and values only
+        vals = [1, 2, 3] if dtype.kind != "c" else [1 + 0j, 2 + 0j, 3 + 0j]
+        q = typed(ctx, vals, dtype, "km")
+        r = run(lambda: q.to("Hz", equivalence="spectral"))
+        led.add(L_RUNS, r.ok, exc=None if r.ok else repr(r.value)[:160], **info)
+        if not r.ok:
+            return
+        d = data_of(r.value)
+        led.add(L_KIND, d.dtype.kind == ("c" if dtype.kind == "c" else "f"), got=str(d.dtype), **info)
+        if d.dtype.kind in "fc" and real_float(d.dtype).itemsize >= 4:
+            exp = [299792458.0 / (1000.0 * v) for v in (1, 2, 3)]
+            got = [complex(py(x)) for x in d.ravel()]
+            led.add(L_VALS, len(got) == 3 and all(abs(g.real - e) <= 1e-4 * e and g.imag == 0 for g, e in zip(got, exp)), got=got, **info)
+        led.keep("operand", q.d, **info)
+        led.keep("result", d, **info)
+        return
+    # ---- the six routes and the same-dimension equivalence routes
+    base = kind in ("in_base", "convert_to_base")
+    src, dst, factor = ("cm", "m", Fraction(1, 100)) if base else ("m", "km", Fraction(1, 1000))
+    q = typed(ctx, values, dtype, src, scalar=scalar)
+    r = run(do_kind, q, kind, dst)
+    inplace = kind in H_INPLACE
+    led.keep("operand", q.d, **info)
+    led.add(L_RUNS, r.ok or (inplace and one_byte_int), exc=None if r.ok else repr(r.value)[:160], **info)
+    if not r.ok:
+        return
+    d = data_of(r.value)
+    kind_ok = d.dtype.kind == ("c" if dtype.kind == "c" else "f")
+    led.add(L_KIND, kind_ok, got=str(d.dtype), **info)
+    led.add(L_SIZE, d.dtype == want, got=str(d.dtype), want=str(want), **info)
+    if kind_ok:
+        fdt = narrowest(dtype, d.dtype)
+        got = [py(x) for x in d.ravel()]
+        bad = [(v, g) for v, g in zip(held, got) if not vclose(g, mul(exact(v), factor), fdt, source=v)]
+        unit_ok = kind == "to_value" or str(r.value.units) == dst
+        led.add(L_VALS, not bad and len(got) == len(held) and unit_ok, bad=bad[:3], **info)
+    if dtype.kind in "ui" and kind in H_WARNS:
+        L = model["large"].get(max(2, dtype.itemsize))
+        if isinstance(L, int) and any(abs(v) >= L for v in held):
+            led.add(L_WARN, r.runtime_warned, warnings=[m for _, m in r.warns if "deprecated" not in m][:3], **info)
+    if not inplace:
+        led.add(L_KEPT, q.dtype == dtype and str(q.units) == src and np.array_equal(np.asarray(q.d).ravel(), np.array(values, dtype=dtype)), **info)
+    led.keep("result", d, **info)
+
+
+def split_kind(kind):
+    """'to@q' -> ('to', True): the step is run on a unyt_quantity"""
+    return (kind[:-2], True) if kind.endswith("@q") else (kind, False)
+
+
+def held_of(values, dtype):
+    return [py(v) for v in np.array(values, dtype=dtype)]
+
+
+def do_kind(q, kind, target):
+    if kind == "to_equivalent":
+        return q.to_equivalent(target, "spectral")  # same dimensions: the equivalence route hands over to in_units
+    if kind == "convert_to_equivalent":
+        c = q.copy()
+        c.convert_to_equivalent(target, "spectral")
+        return c
+    return do_route(q, kind, target, "mks")
+
+
+def history_step_symbolic(ctx, led, kind, dt, model, where, reg, sa, sb, i=0):
+    """one step in harness units xa -> xb whose scales are z3 reals (copy routes and add on real typed data): the converted
+    values are proved for ALL scales, the float type the code asks for is read from the cast log"""
+    dtype = np.dtype(dt)
+    want = want_float(dtype)
+    info = dict(step=where, kind=kind, dtype=str(dtype))
+    kind, scalar = split_kind(kind)
+    if kind == "add":
+        xs, ys = [1, 2, 3, 5 + i], second_values(dtype)
+        a, b = typed(ctx, xs, dtype, "xa", reg), typed(ctx, ys, dtype, "xb", reg)
+        with CastLog() as log:
+            r = run(np.add, a, b)
+        led.add(L_RUNS, r.ok or dtype.itemsize == 1, exc=None if r.ok else repr(r.value)[:160], **info)
+        if not r.ok:
+            return
+        d = data_of(r.value)
+        got = elements(d)
+        if symbolic_result(r.value):
+            t = sym_tol(dtype)
+            led.add(L_SVAL, And(len(got) == len(xs), *[close(g * sa, sa * x + sb * y, extra=(abs(sa * x) + abs(sb * y)) * float(t), tol=t)
+                                                       for g, x, y in zip(got, xs, ys)]))
+            req = log.requested(("dtype",))
+            led.add(L_SREQ, bool(req) and all(x == want for x in req), requested=[str(x) for x in req], **info)
+        else:
+            fdt = narrowest(dtype, d.dtype) if d.dtype.kind == "f" else np.dtype("f8")
+            k = Fraction(sb) / Fraction(sa)
+            led.add(L_SVAL, d.dtype.kind == "f" and len(got) == len(xs) and all(
+                vclose(g, Fraction(x) + Fraction(y) * k, fdt, band=float(abs(Fraction(x)) + abs(Fraction(y) * k))) for g, x, y in zip(got, xs, ys)),
+                got=[py(g) for g in got][:4], **info)
+            led.add(L_SREQ, d.dtype == np.result_type(dtype, want), got=str(d.dtype), **info)
+        return
+    base = kind == "in_base"
+    values = history_values(dtype, model["large"], i)
+    if scalar:
+        values = [{"u": 125, "i": 125, "f": 1500.0}[dtype.kind] + i]
+    held = held_of(values, dtype)
+    q = typed(ctx, values, dtype, "xa", reg, scalar=scalar)
+    with CastLog() as log:
+        r = run(do_kind, q, kind, "xb")
+    led.add(L_RUNS, r.ok, exc=None if r.ok else repr(r.value)[:160], **info)
+    if not r.ok:
+        return
+    d = data_of(r.value)
+    got = elements(d)
+    if symbolic_result(r.value):
+        led.add(L_SVAL, And(len(got) == len(held), *[close(g * (1 if base else sb), sa * v, tol=sym_tol(dtype)) for g, v in zip(got, held)]))
+        if not base:
+            req = log.requested(("asarray",))
+            led.add(L_SREQ, bool(req) and req[-1] == want, requested=[str(x) for x in req], **info)
+    else:
+        fdt = narrowest(dtype, d.dtype) if d.dtype.kind == "f" else np.dtype("f8")
+        fx = Fraction(sa) if base else Fraction(sa) / Fraction(sb)
+        led.add(L_SVAL, len(got) == len(held) and all(vclose(g, Fraction(v) * fx, fdt, source=v) for g, v in zip(got, held)),
+                got=[py(g) for g in got][:4], **info)
+        if not base:
+            led.add(L_SREQ, d.dtype == want, got=str(d.dtype), **info)
+    led.add(L_KEPT, q.dtype == dtype and np.array_equal(np.asarray(q.d).ravel(), np.array(values, dtype=dtype)), **info)
+
+
+def can_be_symbolic(kind, dt):
+    return split_kind(kind)[0] in H_SYMBOLIC and np.dtype(dt).kind in "uif"
+
+
+def make_history_case(steps):
+    """steps: tuple of (kind, dtype). Run 1: every step on table units. Run 2 (if any step can carry symbolic scales): the same
+    history again from the state of a freshly imported library, with those steps in harness units of symbolic scale."""
+    steps = tuple((k, str(np.dtype(d))) for k, d in steps)
+    text = " -> ".join(f"{k}({d})" for k, d in steps)
+
+    def h(ctx):
+        model = read_source_model()
+        led = Ledger()
+        for i, (kind, dt) in enumerate(steps):
+            history_step_table(ctx, led, kind, dt, model, f"{i + 1}/{len(steps)} table units", i)
+        if any(can_be_symbolic(k, d) for k, d in steps):
+            fresh_library(ctx)
+            reg, sa, sb = sym_pair(ctx)
+            for i, (kind, dt) in enumerate(steps):
+                if can_be_symbolic(kind, dt):
+                    history_step_symbolic(ctx, led, kind, dt, model, f"{i + 1}/{len(steps)} symbolic scales", reg, sa, sb, i)
+                else:
+                    history_step_table(ctx, led, kind, dt, model, f"{i + 1}/{len(steps)} table units (run with symbolic scales)", i)
+        led.settle(ctx, text)
+
+    return Case("C17/history/" + "/".join(f"{k}-{d}" for k, d in steps), h,
+                bounds="enumerated: the history (kinds, dtypes); symbolic: unit scales of the copy-route/add steps on real data")
+
+
+SAME_SIZE_OTHER_TARGET = [("float64", "complex64"), ("int64", "complex64"), ("uint64", "complex64")]
+SAME_KIND_OTHER_SIZE = [("float16", "float64"), ("float32", "float64"), ("float16", "float32"), ("complex64", "complex128"),
+                        ("int16", "int64"), ("int32", "int64"), ("uint8", "uint32")]
+OTHER_KIND_OTHER_SIZE = [("float32", "complex64"), ("float64", "complex128"), ("int8", "float64"), ("int32", "float16")]
+REPEATS = [("int64", "int64"), ("complex64", "complex64"), ("float32", "float32")]
+
+
+def both_orders(pairs):
+    return [p for a, b in pairs for p in ((a, b), (b, a))]
+
+
+def history_cases(tier):
+    """the enumerated histories (see BOUNDS)"""
+    quick = tier == "quick"
+    seen, out = set(), []
+
+    def add(*steps):
+        key = tuple((k, str(np.dtype(d))) for k, d in steps)
+        if key not in seen:
+            seen.add(key)
+            out.append(make_history_case(key))
+
+    collide = both_orders(SAME_SIZE_OTHER_TARGET + SAME_KIND_OTHER_SIZE + OTHER_KIND_OTHER_SIZE) + REPEATS
+    sites = ("to", "in_base", "convert_to_units", "add", "out") if quick else \
+        ("to", "in_base", "convert_to_units", "convert_to_base", "add", "out", "to_equivalent")
+    others = [k for k in H_KINDS if k not in sites]
+    # two steps: every ordered dtype pair through the copy route
+    for a in ALL_DTYPES:
+        for b in ALL_DTYPES:
+            add(("to", a), ("to", b))
+    # two steps: every pair of sites x the colliding dtype pairs; thorough: every dtype pair where the two sites are the same or
+    # one of them is the copy route
+    every = [(a, b) for a in ALL_DTYPES for b in ALL_DTYPES]
+    for k1 in sites:
+        for k2 in sites:
+            for a, b in (every if not quick and (k1 == k2 or "to" in (k1, k2)) else collide):
+                add((k1, a), (k2, b))
+    # two steps: each remaining kind before and after the copy route
+    few = both_orders(SAME_SIZE_OTHER_TARGET[:2] + SAME_KIND_OTHER_SIZE[:1] + SAME_KIND_OTHER_SIZE[3:4]) if quick else collide
+    for k in others:
+        for a, b in few:
+            if k == "floor_divide" and "complex" in a + b:
+                a, b = a.replace("complex64", "float32").replace("complex128", "float64"), b.replace("complex64", "float32").replace("complex128", "float64")
+            add((k, a), ("to", b))
+            add(("to", a), (k, b))
+            add((k, a), ("add", b))
+            add(("add", a), (k, b))
+    # two steps: a quantity (0-d) before / after an array and two quantities
+    for k in (("to", "convert_to_units", "in_base") if quick else H_SCALAR):
+        for a, b in few:
+            add((k + "@q", a), ("to", b))
+            add(("to", a), (k + "@q", b))
+            add((k + "@q", a), (k + "@q", b))
+    # three steps
+    reps = ["float32", "int64", "float64", "complex64", "complex128"] if quick else \
+        ["int16", "float16", "int32", "float32", "int64", "float64", "complex64", "complex128"]
+    patterns = [("to", "to", "to"), ("convert_to_units", "add", "to"), ("add", "to", "convert_to_units"), ("to", "out", "in_base")]
+    n = 0
+    for a in reps:
+        for b in reps:
+            for c in reps:
+                if a == b == c:
+                    continue
+                n += 1
+                for pi, pat in enumerate(patterns):
+                    if quick and pi and (n + pi) % 4:
+                        continue  # quick: the copy-route pattern for every triple, each mixed pattern for a quarter of them
+                    add(*zip(pat, (a, b, c)))
+    return out
+
+
 def coverage_extra(results, tier):
     """how much of the verdict is the solver's and how much is enumeration (stated, not hidden)"""
     smt = [r for r in results if r["id"].startswith(("C17/threshold/", "C17/encoding/"))]
     rest = [r for r in results if r not in smt]
     sym = [r for r in rest if r["stats"]["discharged"] > 0]
+    hist = [r for r in rest if r["id"].startswith("C17/history/")]
     return dict(
+        history_cases=len(hist), history_cases_with_symbolic_scale_steps=len([r for r in hist if r["stats"]["discharged"] > 0]),
         smt_threshold_cases=len(smt), smt_threshold_obligations_discharged=sum(r["stats"]["discharged"] for r in smt),
         symbolic_scale_cases=len(sym), symbolic_scale_obligations_discharged=sum(r["stats"]["discharged"] for r in sym),
         enumeration_only_cases=len(rest) - len(sym), enumerated_ground_checks=sum(r["stats"]["ground_true"] for r in rest),
         note="cases listed as enumeration-only (in-place routes, out=, complex operands, equivalence routes, comparison and "
-             "non-additive ufuncs) are concrete runs of the real code on table units: their verdict is not a solver verdict")
+             "non-additive ufuncs, histories made of such steps only) are concrete runs of the real code on table units: their verdict "
+             "is not a solver verdict; which histories are run is enumeration in every case")
 
 
 def _broken(msg):
@@ -1019,6 +1521,8 @@ def _broken(msg):
 
 def cases(tier, mods):
     check_names(mods, NAMES)
+    if id(mods["unyt"]) not in _pristine:
+        _pristine[id(mods["unyt"])] = ProcessState()  # nothing has been converted yet in this process
     try:
         read_source_model()
     except HarnessError as e:
@@ -1065,4 +1569,5 @@ def cases(tier, mods):
             out.append(make_out_case(kind, dt))
     for dt in ALL_DTYPES:
         out.append(make_out_case("mixed", dt, plain_out=True))
-    return out
+    out += history_cases(tier)
+    return [from_fresh_library(c) for c in out]
